@@ -142,7 +142,7 @@ extern "C" int harness_main()
 	for (int i = 0; i < NCLI; ++i)
 	{
 		client& c = g_c[i];
-		c.id = i; c.sock = new tcp::socket(*cios[i]);
+		c.id = i; c.sock = new tcp::socket(*cios[i % 2]);
 		c.sock->open(PROTO_V, ec);
 		c.t_call = now_ns();
 		client* cp = &c;
@@ -190,9 +190,9 @@ extern "C" int harness_main()
 		// the accepted socket's local endpoint is the listening endpoint
 		vp_assert(a_local == g_listen_ep, 15);
 		// its remote endpoint is the connector's local endpoint as seen through the NAT: external address, original port
-		vp_assert(a_remote == tcp::endpoint(ext_of[i], c_local.port()), 16);
+		vp_assert(a_remote == tcp::endpoint(ext_of[i % 2], c_local.port()), 16);
 		// the connector's own local endpoint is its real one
-		vp_assert(c_local.address() == C[i], 17);
+		vp_assert(c_local.address() == C[i % 2], 17);
 		// the peer endpoint reported by accept equals remote_endpoint()
 		if (a.overload == 1) vp_assert(a.peer_out == a_remote, 18);
 		// data written on either socket of the pair arrives at the other socket of that pair and nowhere else
@@ -227,10 +227,17 @@ extern "C" int harness_main()
 		s.run();
 		vp_assert(late_result == E_REFUSED, 40);
 		late.close(ec);
-		tcp::acceptor again(sios);
-		again.open(PROTO_V, ec); again.bind(g_listen_ep, ec);
+		// the same acceptor object re-opened and bound, but not listening again yet: connects are still refused
+		acc.open(PROTO_V, ec); acc.bind(g_listen_ep, ec);
 		vp_assert(!ec, 41);
-		again.close(ec);
+		tcp::socket late2(c1);
+		int late2_result = -1;
+		late2.open(PROTO_V, ec);
+		late2.async_connect(g_listen_ep, [&](error_code const& e) { late2_result = ecv(e); });
+		s.run();
+		vp_assert(late2_result == E_REFUSED, 42);
+		late2.close(ec);
+		acc.close(ec);
 	}
 	for (int i = 0; i < NCLI; ++i) { delete g_c[i].sock; if (g_a[i].owned) delete g_a[i].sock; }
 	s.run();
